@@ -168,3 +168,55 @@ Qed.
 (* non-vacuity: concrete values *)
 Example C20_example : transpose_key K_D_B (-13) = Some K_C /\ get_distance 60 66 = Some 6 /\ from_distance 60 6 = Some 6.
 Proof. vm_compute. auto. Qed.
+
+(* ---- accidental counts of KeyNoteMapping against the circle of fifths (15 keys, complete enumeration) *)
+Definition accidentals (k : Key) : option Z :=
+  match dict_get key_eqb k KeyNoteMapping with Some (_, c) => Some c | None => None end.
+Definition acc_ok (k : Key) : bool :=
+  match tonic k, accidentals k with
+  | Some t, Some c =>
+      match get_distance 0 t with
+      | Some d => (0 <=? c) && (c <=? 7) && (Z.eqb ((c - d) mod 12) 0 || Z.eqb ((c + d) mod 12) 0)
+      | None => false
+      end
+  | _, _ => false
+  end.
+Lemma acc_sweep : forallb acc_ok all_keys = true.
+Proof. vm_compute. reflexivity. Qed.
+
+Lemma C20_accidentals (k : Key) :
+  exists t c d, tonic k = Some t /\ accidentals k = Some c /\ get_distance 0 t = Some d /\
+                0 <= c <= 7 /\ ((c - d) mod 12 = 0 \/ (c + d) mod 12 = 0).
+Proof.
+  pose proof acc_sweep as H. rewrite forallb_forall in H. specialize (H k (all_keys_spec k)).
+  unfold acc_ok in H.
+  destruct (tonic k) as [t|]; [|discriminate]. destruct (accidentals k) as [c|]; [|discriminate].
+  destruct (get_distance 0 t) as [d|] eqn:Ed; [|discriminate].
+  apply andb_prop in H as [H H3]. apply andb_prop in H as [H1 H2].
+  apply Z.leb_le in H1. apply Z.leb_le in H2. apply orb_prop in H3.
+  exists t, c, d.
+  split; [reflexivity|]. split; [reflexivity|]. split; [exact Ed|]. split; [split; assumption|].
+  destruct H3 as [H3|H3]; apply Z.eqb_eq in H3; [left|right]; exact H3.
+Qed.
+
+(* two keys with the same tonic (enharmonic spellings) have accidental counts that add up to 12 *)
+Definition enh_ok (a b : Key) : bool :=
+  match tonic a, tonic b, accidentals a, accidentals b with
+  | Some ta, Some tb, Some ca, Some cb =>
+      if Z.eqb ta tb && negb (key_eqb a b) then Z.eqb (ca + cb) 12 else true
+  | _, _, _, _ => false
+  end.
+Lemma enh_sweep : forallb (fun a => forallb (enh_ok a) all_keys) all_keys = true.
+Proof. vm_compute. reflexivity. Qed.
+Lemma C20_enharmonic_accidentals (a b : Key) (t ca cb : Z) :
+  tonic a = Some t -> tonic b = Some t -> a <> b ->
+  accidentals a = Some ca -> accidentals b = Some cb -> ca + cb = 12.
+Proof.
+  intros Ha Hb Hne Hca Hcb.
+  pose proof enh_sweep as H. rewrite forallb_forall in H. specialize (H a (all_keys_spec a)).
+  rewrite forallb_forall in H. specialize (H b (all_keys_spec b)).
+  unfold enh_ok in H. rewrite Ha, Hb, Hca, Hcb, Z.eqb_refl in H. cbn [andb] in H.
+  destruct (key_eqb a b) eqn:E.
+  - exfalso. apply Hne. unfold key_eqb in E. apply Z.eqb_eq in E. destruct a, b; try reflexivity; discriminate E.
+  - cbn [negb] in H. apply Z.eqb_eq in H. exact H.
+Qed.
